@@ -1,14 +1,32 @@
 #!/bin/bash
-# usage: tools/try_seed.sh <patch.diff> <PROP>...   — applies a seeded change to /repo, runs the quick checks, reverts
-patch="$1"; shift
+# usage: tools/try_seed.sh <seed-id | patch.diff> <PROP>...
+# Applies a seeded change to /repo, runs the quick checks (evidence and replays go to target/seedrun, never
+# to the committed evidence), reverts, and (for a seed id) records the outcome in seeded/<id>/detection.json.
+arg="$1"; shift
+if [ -d "/verif/seeded/$arg" ]; then id="$arg"; patch="/verif/seeded/$arg/patch.diff"; else id=""; patch="$arg"; fi
+tier="${SEED_TIER:-quick}"
 mkdir -p /verif/target/seedrun; cp /verif/known_findings.json /verif/target/seedrun/; rm -rf /verif/target/seedrun/replays
 cd /repo || exit 2
 if ! git diff --quiet; then echo "/repo has uncommitted changes"; exit 2; fi
 git apply "$patch" || { echo "patch does not apply"; exit 2; }
+res="{}"
 for p in "$@"; do
-  out=$(cd /verif && VERIF_ROOT=/verif/target/seedrun ./check "$p" quick 2>&1)
+  out=$(cd /verif && VERIF_ROOT=/verif/target/seedrun ./check "$p" "$tier" 2>&1)
   code=$?
   echo "== $p exit=$code"
-  echo "$out" | grep -E "VIOLATION|clauses|MACHINERY|quick:" | sort | uniq -c | sort -rn | head -6 | cut -c1-400
+  echo "$out" | grep -E "VIOLATION|clauses|MACHINERY|$tier:" | sort | uniq -c | sort -rn | head -6 | cut -c1-400
+  nviol=$(echo "$out" | grep -c "^VIOLATION")
+  sample=$(echo "$out" | grep -m1 -E "^  clauses|clauses:" | cut -c1-600)
+  res=$(python3 -c "import json,sys; r=json.loads(sys.argv[1]); r[sys.argv[2]]={'tier':sys.argv[6],'exit':int(sys.argv[3]),'violation_lines':int(sys.argv[4]),'sample':sys.argv[5]}; print(json.dumps(r))" "$res" "$p" "$code" "$nviol" "$sample" "$tier")
 done
 git checkout -- .
+if [ -n "$id" ]; then
+  python3 - "$id" "$res" <<'PY'
+import json,sys,os
+id,res=sys.argv[1],json.loads(sys.argv[2])
+f=f"/verif/seeded/{id}/detection.json"
+old=json.load(open(f)) if os.path.exists(f) else {}
+old.update(res)
+json.dump(old,open(f,"w"),indent=1)
+PY
+fi
